@@ -152,6 +152,28 @@ func runFileSink(rc *RunCtx, prop string, crash bool, faults bool) {
 		}
 	}
 
+	// C08: a non-empty DIRECTORY that is named like the sink's oldest rotated file: the retention clean-up
+	// cannot remove it, so rotations fail (an error for that event, which the producer then sends again)
+	stuckDir := prop == "C08" && !crash && sink.MaxFiles > 0 && rotEnabled && tp.Choose(8, "unremovable-oldest") == 0
+	if stuckDir {
+		d := filepath.Join(logDir, base+"-0000000000000000000"+ext)
+		os.MkdirAll(d, 0o700)
+		os.WriteFile(filepath.Join(d, "keep"), []byte("x"), 0o600)
+		simrt.Probe("fs.unremovable-oldest")
+	}
+	// C15: rotated files of the sink's own, left by an earlier run whose clock was ahead (timestamps in the
+	// future): they are the NEWEST by name, so they are the ones retention keeps -- and the file being written
+	// is never among the ones it removes
+	if prop == "C15" && sink.MaxFiles > 0 && rotEnabled && !sink.TimestampOnlyOnRotate && tp.Choose(6, "future-leftovers") == 0 {
+		os.MkdirAll(logDir, 0o700)
+		n := sink.MaxFiles + 1 + tp.Choose(2, "nfuture")
+		for i := 0; i < n; i++ {
+			p := filepath.Join(logDir, fmt.Sprintf("%s-%d%s", base, int64(4102444800000000000)+int64(i), ext)) // 2100-01-01 ...
+			os.WriteFile(p, []byte("from a run with the clock ahead\n"), wantMode)
+			os.Chmod(p, wantMode)
+		}
+		simrt.Probe("fs.future-stamped-leftovers")
+	}
 	var preContent []byte
 	// a plain-named active file may already exist with another mode (an earlier
 	// run of the application): a configured Mode must be applied to it as well
@@ -204,7 +226,7 @@ func runFileSink(rc *RunCtx, prop string, crash bool, faults bool) {
 	}
 
 	seqMode := prop == "C15"
-	hugeRun := prop == "C08" && tp.Choose(5, "huge-run") == 0 // every third event of this run is larger than 32 KiB
+	hugeRun := (prop == "C08" || prop == "C13") && tp.Choose(5, "huge-run") == 0 // every third event of this run is larger than 32 KiB
 	nWriters := 1 + tp.Choose(8, "nwriters")
 	if seqMode {
 		nWriters = 1
@@ -237,8 +259,10 @@ func runFileSink(rc *RunCtx, prop string, crash bool, faults bool) {
 			simrt.Probe("fs.event-without-the-format")
 		}
 		stamp++
-		e.Call = stamp
-		e.CallStep = sim.Step
+		if !e.Started { // (a re-send of the same event after an error keeps the first attempt's start)
+			e.Call = stamp
+			e.CallStep = sim.Step
+		}
 		e.Task = simrt.TaskID()
 		e.Started = true
 		var tb time.Time
@@ -301,7 +325,7 @@ func runFileSink(rc *RunCtx, prop string, crash bool, faults bool) {
 				if tp.Choose(3, "smallish") == 0 {
 					n = 1 + tp.Choose(30, "len-small")
 				}
-				if !seqMode && !faults && (tp.Choose(25, "huge") == 0 || (hugeRun && evID%3 == 1)) {
+				if !seqMode && ((!faults && tp.Choose(25, "huge") == 0) || (hugeRun && evID%3 == 1)) {
 					// larger than any buffer a copy loop might use: the event still reaches the file in one piece
 					n = 33000 + tp.Choose(70000, "len-huge")
 					simrt.Probe("fs.huge-event")
@@ -353,6 +377,11 @@ func runFileSink(rc *RunCtx, prop string, crash bool, faults bool) {
 				switch st.kind {
 				case "write":
 					doWrite(st.ev)
+					if stuckDir && st.ev.Err != nil {
+						// an at-least-once producer: the event was reported failed, so it is sent again
+						simrt.Probe("fs.resent-after-error")
+						doWrite(st.ev)
+					}
 				case "reopen":
 					err := sink.Reopen()
 					if twin != nil {
